@@ -281,4 +281,258 @@ theorem tokEndTag_class (s : St) (hw : DispWf s.disp) (name raw : Bytes) (src : 
   · simp only [Option.some.injEq] at h; exact Or.inr (Or.inr h.symm)
   · simp at h
 
+/-! ### the events -/
+
+theorem tokIf_start_class (cfg : Cfg) (s1 : St) (hf : s1.fault = none) (hw : DispWf s1.disp) (b : Bool)
+    (nm : Bytes) (attrs : List (Bytes × Bytes × AttrOutline)) (ns' : Model.Ns) (sc : Bool) (raw : Bytes)
+    (src : Range) (base : Nat) (e : Err)
+    (h : (tokIf cfg b s1 (.startTag nm attrs ns' sc raw src base)).2 = some e) : e = .handler ∨ Residual e := by
+  unfold tokIf at h
+  split at h
+  · have htok : token cfg s1 (.startTag nm attrs ns' sc raw src base) = tokStartTag cfg s1 nm attrs ns' sc raw src base := by
+      unfold token; simp [hf]
+    rw [htok] at h
+    exact tokStartTag_class cfg s1 hw _ _ _ _ _ _ _ e h
+  · simp at h
+
+theorem tokIf_start_frame (cfg : Cfg) (s1 : St) (hf : s1.fault = none) (b : Bool)
+    (nm : Bytes) (attrs : List (Bytes × Bytes × AttrOutline)) (ns' : Model.Ns) (sc : Bool) (raw : Bytes)
+    (src : Range) (base : Nat) (h : (tokIf cfg b s1 (.startTag nm attrs ns' sc raw src base)).2 = none) :
+    (tokIf cfg b s1 (.startTag nm attrs ns' sc raw src base)).1.fault = none ∧
+    (tokIf cfg b s1 (.startTag nm attrs ns' sc raw src base)).1.vm = s1.vm := by
+  unfold tokIf at h ⊢
+  split
+  · rename_i hb
+    simp only [hb, if_true] at h
+    have htok : token cfg s1 (.startTag nm attrs ns' sc raw src base) = tokStartTag cfg s1 nm attrs ns' sc raw src base := by
+      unfold token; simp [hf]
+    rw [htok] at h ⊢
+    obtain ⟨_, _, _, _, _, e2, _, _, e5⟩ := tokStartTag_ok cfg s1 nm attrs ns' sc raw src base h
+    exact ⟨by rw [e5]; exact hf, e2⟩
+  · exact ⟨hf, rfl⟩
+
+/-- **Full_start_no_panic.** A start-tag event from a state satisfying `J` (a VM exists, the attributes
+handed over are sliceable): either it ends without error in a state satisfying `J` again, or it fails
+with a content-handler error or at a residual glue site — never in the VM, never in the dispatcher's
+locator / match-id / refcount branches. -/
+theorem Full_start_no_panic (cfg : Cfg) (s : St) (hJ : J cfg s)
+    (hb : IdsBounded (theProgram cfg) cfg.sels.length) (vm : SelVM.Vm) (hv : s.vm = some vm)
+    (name : LocalName) (ns : Model.Ns) (info : AuxInfo) (aux : SelVM.AuxStartTagInfo) (ha : auxConv info = some aux)
+    (nm : Bytes) (attrs : List (Bytes × Bytes × AttrOutline)) (ns' : Model.Ns) (sc : Bool) (raw : Bytes)
+    (src : Range) (base : Nat) :
+    ((ctlStep cfg s (.start name ns info (.startTag nm attrs ns' sc raw src base))).2 = none →
+      J cfg (ctlStep cfg s (.start name ns info (.startTag nm attrs ns' sc raw src base))).1) ∧
+    (∀ e, (ctlStep cfg s (.start name ns info (.startTag nm attrs ns' sc raw src base))).2 = some e →
+      e = .handler ∨ Residual e) := by
+  obtain ⟨hprog, ts, hsem⟩ := hJ.vm vm hv
+  obtain ⟨sp, hinv⟩ := hJ.scope
+  obtain ⟨⟨vm', ms⟩, hh⟩ := vm_total cfg vm ts hprog hsem (selTag name ns aux)
+  have hids := vm_ids_bounded cfg vm vm' ts _ hprog hb hsem _ ms hh
+  have hwf : WfEvent cfg.selRegs.length (scopeEvStart vm (selTag name ns aux) ms) := by
+    simp only [scopeEvStart, WfEvent, Cfg.selRegs, List.length_map]
+    exact hids
+  -- package scope's step succeeds, so `start_matching` does
+  obtain ⟨matched, hms, heq⟩ := toScope_handleStartTag s vm vm' hv hJ.valid.sync (selTag name ns aux) ms hh (s.ord + 1)
+  have hmatched : ms.map (·.matchId) = matched := by rw [hms]; simp [Function.comp_def]
+  have hsm : ∃ d, startMatchingInfos s.disp ms = .ok d := by
+    obtain ⟨s2, h2, _⟩ := step_refines (fun _ _ => ⟨0, false, false⟩) cfg.selRegs cfg.docRegs sp (scopeState s)
+      (s.ord + 1) (scopeEvStart vm (selTag name ns aux) ms) hinv hwf
+    cases hm : startMatchingInfos s.disp ms with
+    | ok d => exact ⟨d, rfl⟩
+    | error p =>
+      exfalso
+      simp only [Controller.step, scopeEvStart, scopeState, hmatched] at h2
+      rw [heq, hm] at h2
+      simp [Except.map] at h2
+  obtain ⟨d, hm⟩ := hsm
+  have spec := startPhase_spec s vm hJ.fault hv name ns info aux ha
+  rw [hh] at spec
+  simp only [hm] at spec
+  have hs1f : (afterStart s vm vm' d).fault = none := hJ.fault
+  have hs1w : DispWf (afterStart s vm vm' d).disp := (startMatchingInfos_good ms hm hJ.valid.wf).1
+  have hstep : ctlStep cfg s (.start name ns info (.startTag nm attrs ns' sc raw src base)) =
+      tokIf cfg (convFlags d.getTokenCaptureFlags).nextStartTag (afterStart s vm vm' d)
+        (.startTag nm attrs ns' sc raw src base) := by
+    simp only [ctlStep, spec]
+  constructor
+  · intro hok
+    have hok' := hok
+    rw [hstep] at hok'
+    obtain ⟨hfault, hvm⟩ := tokIf_start_frame cfg _ hs1f _ nm attrs ns' sc raw src base hok'
+    refine ⟨by rw [hstep]; exact hfault, ctlStep_valid hJ.valid _, ?_, ?_⟩
+    · obtain ⟨vm2, ms2, d2, script, invs, hh2, _, hsim⟩ := start_refines cfg s vm hJ.fault hv hJ.valid.sync hJ.valid.wf
+        name ns info aux ha nm attrs ns' sc raw src base hok
+      rw [hh] at hh2
+      simp only [Except.ok.injEq, Prod.mk.injEq] at hh2
+      rw [← hh2.2] at hsim
+      exact ⟨_, (Full_event_C05 cfg s _ sp hinv script _ _ invs hwf hsim).2⟩
+    · intro vmx hvx
+      rw [hstep, hvm] at hvx
+      simp only [afterStart, Option.some.injEq] at hvx
+      subst hvx
+      obtain ⟨_, _, hp', _, hsem'⟩ := hsem.handleStartTag hh
+      exact ⟨hp'.trans hprog, _, hsem'⟩
+  · intro e he
+    rw [hstep] at he
+    exact tokIf_start_class cfg _ hs1f hs1w _ nm attrs ns' sc raw src base e he
+
+/-- **Full_start_no_panic_novm.** The same without selectors (no VM). -/
+theorem Full_start_no_panic_novm (cfg : Cfg) (s : St) (hJ : J cfg s) (hv : s.vm = none)
+    (name : LocalName) (ns : Model.Ns) (info : AuxInfo)
+    (nm : Bytes) (attrs : List (Bytes × Bytes × AttrOutline)) (ns' : Model.Ns) (sc : Bool) (raw : Bytes)
+    (src : Range) (base : Nat) :
+    ((ctlStep cfg s (.start name ns info (.startTag nm attrs ns' sc raw src base))).2 = none →
+      J cfg (ctlStep cfg s (.start name ns info (.startTag nm attrs ns' sc raw src base))).1) ∧
+    (∀ e, (ctlStep cfg s (.start name ns info (.startTag nm attrs ns' sc raw src base))).2 = some e →
+      e = .handler ∨ Residual e) := by
+  obtain ⟨sp, hinv⟩ := hJ.scope
+  have hstep : ctlStep cfg s (.start name ns info (.startTag nm attrs ns' sc raw src base)) =
+      tokIf cfg s.flags.nextStartTag { s with ord := s.ord + 1 } (.startTag nm attrs ns' sc raw src base) := by
+    simp only [ctlStep, startPhase_novm s hJ.fault hv]
+  have hs1f : ({ s with ord := s.ord + 1 } : St).fault = none := hJ.fault
+  constructor
+  · intro hok
+    have hok' := hok
+    rw [hstep] at hok'
+    obtain ⟨hfault, hvm⟩ := tokIf_start_frame cfg _ hs1f _ nm attrs ns' sc raw src base hok'
+    refine ⟨by rw [hstep]; exact hfault, ctlStep_valid hJ.valid _, ?_, ?_⟩
+    · obtain ⟨script, invs, hsim⟩ := start_refines_novm cfg s hJ.fault hv hJ.valid.sync hJ.valid.wf name ns info
+        nm attrs ns' sc raw src base (.startTag [] .push false []) ⟨_, _, _, _, rfl⟩ hok
+      exact ⟨_, (Full_event_C05 cfg s _ sp hinv script _ _ invs (by simp [WfEvent]) hsim).2⟩
+    · intro vmx hvx
+      rw [hstep, hvm] at hvx
+      simp only at hvx
+      rw [hv] at hvx; cases hvx
+  · intro e he
+    rw [hstep] at he
+    exact tokIf_start_class cfg _ hs1f hJ.valid.wf _ nm attrs ns' sc raw src base e he
+
+/-- **Full_end_no_panic.** An end-tag event from a state satisfying `J`: either it ends without error in a
+state satisfying `J` again (in particular NO fault was recorded: `pop_up_to`'s count bookkeeping, every
+`dec_user_count`, the end-tag handler locators and `matched_elements_with_removed_content -= 1` were
+all in range), or it fails at the residual "payload missing" site. -/
+theorem Full_end_no_panic (cfg : Cfg) (s : St) (hJ : J cfg s) (name : LocalName) (nm raw : Bytes) (src : Range) :
+    ((ctlStep cfg s (.end_ name (.endTag nm raw src))).2 = none →
+      J cfg (ctlStep cfg s (.end_ name (.endTag nm raw src))).1) ∧
+    (∀ e, (ctlStep cfg s (.end_ name (.endTag nm raw src))).2 = some e → Residual e) := by
+  obtain ⟨sp, hinv⟩ := hJ.scope
+  have hpre : ∀ vm, s.vm = some vm → PreOk vm.stack := by
+    intro vm hv
+    obtain ⟨_, ts, hsem⟩ := hJ.vm vm hv
+    exact preOk_of_stackInv hsem.stack
+  -- the controller part succeeds without fault
+  obtain ⟨s2, h2, _⟩ := step_refines (fun _ _ => ⟨0, false, false⟩) cfg.selRegs cfg.docRegs sp (scopeState s) s.ord
+    (.endTag (asciiLowerBytes (nameBytes name))) hinv (by simp [WfEvent])
+  have hctl : ∃ s1, endTag s name = (s1, s1.flags) ∧ s1.fault = none ∧ DispWf s1.disp ∧
+      (∀ vmx, s1.vm = some vmx → vmx.program = theProgram cfg ∧ ∃ ts, SelVM.SemInv vmx ts (theProgram cfg).enableNthOfType) := by
+    unfold endTag
+    cases hv : s.vm with
+    | none =>
+      exact ⟨s, by simp, hJ.fault, hJ.valid.wf, fun vmx hx => by rw [hv] at hx; cases hx⟩
+    | some vm =>
+      obtain ⟨hprog, ts, hsem⟩ := hJ.vm vm hv
+      obtain ⟨vm1, he1, hp1, _, hsem1⟩ := hsem.handleEndTag (nameBytes name)
+      have hex : ∃ popped, vm.execForEndTag (nameBytes name) = .ok (vm1, popped) := by
+        unfold SelVM.Vm.handleEndTag at he1
+        simp only [bind, Except.bind, pure, Except.pure] at he1
+        split at he1
+        · cases he1
+        · rename_i r hr
+          simp only [Except.ok.injEq] at he1
+          exact ⟨r.2, by rw [hr, ← he1]⟩
+      obtain ⟨popped, he⟩ := hex
+      obtain ⟨hle, heq⟩ := toScope_handleEndTag s vm vm1 hv hJ.valid.sync (hpre vm hv) (nameBytes name) popped he
+      simp only [he, hle, if_true]
+      cases hsm : stopMatchingPopped s.disp popped (s.descs.drop (s.descs.length - popped.length)) with
+      | error p =>
+        exfalso
+        simp only [Controller.step, scopeState] at h2
+        rw [heq, hsm] at h2
+        simp [Except.map] at h2
+      | ok d =>
+        refine ⟨_, rfl, hJ.fault, (stopMatchingPopped_good _ _ hsm hJ.valid.wf).1, ?_⟩
+        intro vmx hx
+        simp only [Option.some.injEq] at hx
+        subst hx
+        exact ⟨hp1.trans hprog, _, hsem1⟩
+  obtain ⟨s1, he1, hf1, hw1, hvm1⟩ := hctl
+  have hstep : ctlStep cfg s (.end_ name (.endTag nm raw src)) = tokIf cfg s1.flags.nextEndTag s1 (.endTag nm raw src) := by
+    simp only [ctlStep, he1]
+  have htok : token cfg s1 (.endTag nm raw src) = tokEndTag s1 nm raw src := by
+    unfold token; simp [hf1]
+  constructor
+  · intro hok
+    have hframe : (tokIf cfg s1.flags.nextEndTag s1 (.endTag nm raw src)).1.fault = none ∧
+        (tokIf cfg s1.flags.nextEndTag s1 (.endTag nm raw src)).1.vm = s1.vm := by
+      rw [hstep] at hok
+      unfold tokIf at hok ⊢
+      split
+      · rename_i hb
+        simp only [hb, if_true] at hok
+        rw [htok] at hok ⊢
+        obtain ⟨_, _, _, _, e2, _, _, e5⟩ := tokEndTag_ok s1 nm raw src hok
+        exact ⟨by rw [e5]; exact hf1, e2⟩
+      · exact ⟨hf1, rfl⟩
+    have hnf : (ctlStep cfg s (.end_ name (.endTag nm raw src))).1.fault = none := by rw [hstep]; exact hframe.1
+    refine ⟨hnf, ctlStep_valid hJ.valid _, ?_, ?_⟩
+    · obtain ⟨script, invs, hsim⟩ := end_refines cfg s hJ.fault hJ.valid.sync hJ.valid.wf hpre name nm raw src s.ord hok hnf
+      exact ⟨_, (Full_event_C05 cfg s _ sp hinv script _ _ invs (by simp [WfEvent]) hsim).2⟩
+    · intro vmx hvx
+      rw [hstep, hframe.2] at hvx
+      exact hvm1 vmx hvx
+  · intro e he
+    rw [hstep] at he
+    unfold tokIf at he
+    split at he
+    · rw [htok] at he
+      exact tokEndTag_class s1 hw1 _ _ _ e he
+    · simp at he
+
+/-- **Full_other_no_panic.** A text / comment / doctype token from a state satisfying `J`: `J` again, or a
+content-handler error. -/
+theorem Full_other_no_panic (cfg : Cfg) (s : St) (hJ : J cfg s) (tok : Model.Token) (hk : (CtlEv.other tok).WellKinded) :
+    ((ctlStep cfg s (.other tok)).2 = none → J cfg (ctlStep cfg s (.other tok)).1) ∧
+    (∀ e, (ctlStep cfg s (.other tok)).2 = some e → e = .handler) := by
+  have hframe : (ctlStep cfg s (.other tok)).1.fault = none ∧ scopeState (ctlStep cfg s (.other tok)).1 = scopeState s ∧
+      (ctlStep cfg s (.other tok)).1.vm = s.vm := by
+    simp only [ctlStep]
+    unfold tokIf
+    split
+    · obtain ⟨a, b, c, _, e⟩ := tokOther_frame cfg s tok hk hJ.fault
+      exact ⟨by rw [e]; exact hJ.fault, scopeState_congr a b c, b⟩
+    · exact ⟨hJ.fault, rfl, rfl⟩
+  constructor
+  · intro _
+    refine ⟨hframe.1, ctlStep_valid hJ.valid _, by rw [hframe.2.1]; exact hJ.scope, ?_⟩
+    intro vmx hvx
+    rw [hframe.2.2] at hvx
+    exact hJ.vm vmx hvx
+  · intro e he
+    simp only [ctlStep] at he
+    unfold tokIf at he
+    split at he
+    · simp only at he
+      have hf := hJ.fault
+      unfold token at he
+      simp only [hf] at he
+      cases tok with
+      | startTag => simp [CtlEv.WellKinded] at hk
+      | endTag => simp [CtlEv.WellKinded] at hk
+      | comment text raw src =>
+        simp only [tokComment, outOf] at he
+        split at he
+        · simp only [Option.some.injEq] at he; exact he.symm
+        · simp at he
+      | doctype name publicId systemId fq raw src =>
+        simp only [tokDoctype, outOf] at he
+        split at he
+        · simp only [Option.some.injEq] at he; exact he.symm
+        · simp at he
+      | text bytes tt last src =>
+        simp only [tokText, outOf] at he
+        split at he
+        · simp only [Option.some.injEq] at he; exact he.symm
+        · simp at he
+    · simp at he
+
 end LolHtml.Thm.Full
